@@ -484,6 +484,18 @@ pub fn check(id: &str, tier: Tier) -> i32 {
         }));
         let o = run_plan(id, &min, "final");
         let detail_min = o.viols.iter().find(|(p, c, _)| p == id && c == class).map(|(_, _, d)| d.clone()).unwrap_or_else(|| detail.clone());
+        // a check that reports the exact scheduler decisions (shuttle) gets them pinned into the replay plan
+        let mut min = min;
+        if let Some(i) = detail_min.find("[shuttle schedule: ")
+            && min.get("schedule").is_some()
+        {
+            let sched = detail_min[i + 19..].trim_end_matches(']').to_string();
+            let mut pinned = min.clone();
+            pinned["schedule"] = json!(sched);
+            if run_plan(id, &pinned, "pinned").classes(id).iter().any(|c| c == class) {
+                min = pinned;
+            }
+        }
         let dir = format!("{}/replays", simcore::verif_dir());
         let _ = std::fs::create_dir_all(&dir);
         let path = format!("{dir}/{id}-seed{seed}-run{run}.json");
